@@ -1,11 +1,627 @@
-//! (stub) binding for this area — see DESIGN.md
-use crate::util::Args;
+//! C18 — behaviour independent of integer-overflow checking.
+//!
+//! The harness is built twice (cargo profiles `release`: overflow checks off, `chk`: overflow
+//! checks + debug assertions on, otherwise identical) and the sub-commands of this module are run
+//! by checks/c18.py with the same arguments under both builds:
+//!
+//!   prof-run     one complete case: create (the CLI's call sequence, optional schedule
+//!                perturbation) -> extraction through the reader API (samples, lengths, ranges,
+//!                segment descriptors) -> open of truncated copies of the archive; every
+//!                observation is one NDJSON event for spec/Trace_Profiles.tla
+//!   trace-lzest  real LZDiff::estimate / LZDiff::encode calls on mutation-derived
+//!                (reference, target) pairs, one event per call, for spec/Trace_LzEstimate.tla
+//!
+//! Nothing is judged here: the code projects (bytes -> numbers, panic message -> class, LZ bytes ->
+//! token fields) and drives the real API. Panics of EVERY thread are data: a process-wide hook
+//! records (message, location); a worker that dies in the middle of a barrier round would block
+//! the others for ever, so the create runs under a watchdog that gives up a fixed grace period
+//! after the first panic.
+use crate::archive::{create_like_cli, CreateOpts};
+use crate::util::{self, Args};
 use anyhow::Result;
+use ragc_common::verif::{self, Event};
+use ragc_core::{Decompressor, DecompressorConfig, LZDiff};
+use rand::rngs::StdRng;
+use rand::Rng;
+use serde_json::{json, Value};
+use std::io::Write;
+use std::sync::atomic::{AtomicI64, AtomicU64, Ordering};
+use std::sync::{Arc, Mutex};
 
-/// Returns None when `cmd` is not one of this module's sub-commands.
 pub fn dispatch(cmd: &str, a: &Args) -> Option<Result<()>> {
-    let _ = a;
     match cmd {
+        "prof-run" => Some(prof_run(a)),
+        "trace-lzest" => Some(trace_lzest(a)),
+        "prof-probe" => Some(probe_cmd()),
         _ => None,
     }
+}
+
+// ------------------------------------------------------------------------------------------
+// panics of all threads
+// ------------------------------------------------------------------------------------------
+static PANICS: Mutex<Vec<(String, String)>> = Mutex::new(Vec::new());
+static FIRST_PANIC_MS: AtomicI64 = AtomicI64::new(-1);
+
+fn now_ms() -> i64 {
+    use std::time::{SystemTime, UNIX_EPOCH};
+    SystemTime::now().duration_since(UNIX_EPOCH).map(|d| d.as_millis() as i64).unwrap_or(0)
+}
+
+fn install_global_hook() {
+    std::panic::set_hook(Box::new(|info| {
+        let loc = info.location().map(|l| format!("{}:{}", l.file(), l.line())).unwrap_or_default();
+        let p = info.payload();
+        let msg = if let Some(s) = p.downcast_ref::<&str>() {
+            s.to_string()
+        } else if let Some(s) = p.downcast_ref::<String>() {
+            s.clone()
+        } else {
+            "panic".to_string()
+        };
+        util::LAST_PANIC_LOC.with(|l| *l.borrow_mut() = loc.clone());
+        if let Ok(mut v) = PANICS.lock() {
+            v.push((msg, loc));
+        }
+        let _ = FIRST_PANIC_MS.compare_exchange(-1, now_ms(), Ordering::SeqCst, Ordering::SeqCst);
+    }));
+}
+
+/// Class of a panic message: the messages rustc generates for checked integer arithmetic.
+fn is_arith(msg: &str) -> bool {
+    msg.starts_with("attempt to ") && (msg.ends_with("overflow") || msg.contains("with overflow"))
+}
+
+/// Strip the machine-specific prefix of a source location (…/ragc-core/src/x.rs:N).
+fn short_loc(loc: &str) -> String {
+    for key in ["ragc-core/", "ragc-common/", "ragc-cli/", "harness/"] {
+        if let Some(p) = loc.find(key) {
+            return loc[p..].to_string();
+        }
+    }
+    loc.to_string()
+}
+
+fn take_panics() -> Vec<Value> {
+    let mut v = PANICS.lock().unwrap();
+    let out = v.iter().take(8).map(|(m, l)| json!({"msg": m, "loc": short_loc(l), "arith": is_arith(m)})).collect();
+    v.clear();
+    FIRST_PANIC_MS.store(-1, Ordering::SeqCst);
+    out
+}
+
+/// Is this binary compiled with integer-overflow checks? Measured, not assumed.
+fn probe_overflow_checks() -> bool {
+    let x: u8 = std::hint::black_box(255u8);
+    let r = std::panic::catch_unwind(move || std::hint::black_box(x + std::hint::black_box(1u8)));
+    r.is_err()
+}
+
+fn probe_cmd() -> Result<()> {
+    install_global_hook();
+    let ovf = probe_overflow_checks();
+    take_panics();
+    println!("{}", json!({"ovf": ovf, "debug_assertions": cfg!(debug_assertions)}));
+    Ok(())
+}
+
+fn cls_of(panics: &[Value], base: &str) -> String {
+    if panics.iter().any(|p| p["arith"] == json!(true)) {
+        "arith".to_string()
+    } else if !panics.is_empty() {
+        "panic".to_string()
+    } else {
+        base.to_string()
+    }
+}
+
+// ------------------------------------------------------------------------------------------
+// prof-run
+// ------------------------------------------------------------------------------------------
+fn num(e: &Event, k: &str) -> i64 {
+    e.nums.iter().find(|(n, _)| *n == k).map(|x| x.1).unwrap_or(-1)
+}
+
+fn prof_run(a: &Args) -> Result<()> {
+    install_global_hook();
+    let ovf = probe_overflow_checks();
+    take_panics();
+    let prof = a.opt("prof").unwrap_or(if ovf { "chk" } else { "release" }).to_string();
+    let o = CreateOpts::from_args(a)?;
+    let perturb: u64 = a.num("perturb", 0u64);
+    let stall_secs: u64 = a.num("stall-secs", 120u64);
+    let grace_ms: i64 = a.num("grace-ms", 2500i64);
+    let mut evs: Vec<Value> = vec![];
+
+    // ---- create -------------------------------------------------------------------------
+    let prios: Arc<Mutex<(i64, i64, Vec<i64>, u64)>> = Arc::new(Mutex::new((i64::MAX, i64::MIN, vec![], 0)));
+    let last_progress = Arc::new(AtomicU64::new(0));
+    let t0 = std::time::Instant::now();
+    {
+        let pr = prios.clone();
+        let lp = last_progress.clone();
+        verif::install(Some(Arc::new(move |e: Event| {
+            lp.store(t0.elapsed().as_millis() as u64, Ordering::Relaxed);
+            if e.kind == "p_contig" || e.kind == "p_token" {
+                let p = num(&e, "prio");
+                let mut g = pr.lock().unwrap();
+                g.0 = g.0.min(p);
+                g.1 = g.1.max(p);
+                if e.kind == "p_token" {
+                    if g.2.last() != Some(&p) {
+                        g.2.push(p);
+                    }
+                } else {
+                    g.3 += 1;
+                }
+            }
+        })));
+    }
+    if perturb != 0 {
+        let ctr = Arc::new(AtomicU64::new(0));
+        verif::install_scheduler(Some(Arc::new(move |site: &'static str| {
+            let n = ctr.fetch_add(1, Ordering::Relaxed);
+            let mut r = util::rng(perturb ^ (verif::thread_id() << 32) ^ n ^ (site.len() as u64) << 20);
+            match r.gen_range(0..10) {
+                0..=4 => {}
+                5..=7 => std::thread::yield_now(),
+                _ => std::thread::sleep(std::time::Duration::from_micros(r.gen_range(50..800))),
+            }
+        })));
+    }
+    let (tx, rx) = std::sync::mpsc::channel();
+    let o2 = o.clone();
+    std::thread::spawn(move || {
+        let r = std::panic::catch_unwind(std::panic::AssertUnwindSafe(|| create_like_cli(&o2)));
+        let _ = tx.send(r.map_err(|_| ()));
+    });
+    let mut abandoned = false;
+    let result = loop {
+        match rx.recv_timeout(std::time::Duration::from_millis(50)) {
+            Ok(r) => break Some(r),
+            Err(std::sync::mpsc::RecvTimeoutError::Timeout) => {
+                let fp = FIRST_PANIC_MS.load(Ordering::SeqCst);
+                if fp >= 0 && now_ms() - fp > grace_ms {
+                    abandoned = true; // a thread died; the others may wait for it for ever
+                    break None;
+                }
+                let idle = t0.elapsed().as_millis() as u64 - last_progress.load(Ordering::Relaxed);
+                if idle > stall_secs * 1000 {
+                    abandoned = true;
+                    break None;
+                }
+            }
+            Err(_) => break None,
+        }
+    };
+    verif::install(None);
+    verif::install_scheduler(None);
+    let panics = take_panics();
+    let (base, msg) = match &result {
+        Some(Ok(Ok(()))) => ("ok", String::new()),
+        Some(Ok(Err(e))) => ("err", format!("{:#}", e)),
+        Some(Err(())) => ("panic", String::new()),
+        None => ("stalled", String::new()),
+    };
+    let cls = cls_of(&panics, base);
+    let sha = if cls == "ok" { std::fs::read(&o.out).map(|b| util::sha256_hex(&b)).unwrap_or_default() } else { String::new() };
+    {
+        let g = prios.lock().unwrap();
+        let none = g.3 == 0 && g.2.is_empty();
+        evs.push(json!({"ev": "create", "prof": prof, "ovf": ovf, "cls": cls, "msg": msg, "sha": sha, "panics": panics,
+            "prio_min": if none { i32::MAX as i64 } else { g.0 }, "prio_max": if none { i32::MAX as i64 } else { g.1 },
+            "tok_prios": g.2.iter().take(64).collect::<Vec<_>>(), "n_contigs": g.3, "mode": if o.files.len() == 1 { "single" } else { "multi" },
+            "threads": o.threads, "abandoned": abandoned}));
+    }
+
+    // ---- extraction through the reader API ------------------------------------------------
+    if cls == "ok" {
+        evs.extend(extract_events(&prof, &o.out, o.k, a.num("seed", 1u64)));
+        if let Some(t) = a.opt("trunc") {
+            evs.push(open_events(&prof, &o.out, t.parse().unwrap_or(0), a.num("seed", 1u64))?);
+        }
+    }
+    let mut f = std::io::BufWriter::new(std::fs::File::create(a.get("trace")?)?);
+    for e in &evs {
+        writeln!(f, "{}", e)?;
+    }
+    f.flush()?;
+    println!("{}", json!({"prof": prof, "ovf": ovf, "cls": cls, "sha256": sha, "events": evs.len(),
+        "arith": evs.iter().map(|e| e["panics"].as_array().map(|p| p.iter().filter(|x| x["arith"] == json!(true)).count()).unwrap_or(0)).sum::<usize>()}));
+    std::io::stdout().flush()?;
+    if abandoned {
+        std::process::exit(0); // blocked worker threads cannot be joined
+    }
+    Ok(())
+}
+
+fn hash_update(h: &mut sha2::Sha256, b: &[u8]) {
+    use sha2::Digest;
+    h.update((b.len() as u64).to_le_bytes());
+    h.update(b);
+}
+
+/// Everything the reader API returns for the archive, reduced to digests and the numbers the
+/// specification reasons about (segment raw lengths, k, contig lengths).
+fn extract_events(prof: &str, agc: &str, k: usize, seed: u64) -> Vec<Value> {
+    use sha2::Digest;
+    let mut out = vec![];
+    let opened = std::panic::catch_unwind(|| Decompressor::open(agc, DecompressorConfig { verbosity: 0 }));
+    let mut d = match opened {
+        Ok(Ok(d)) => d,
+        Ok(Err(e)) => {
+            out.push(json!({"ev": "extract", "prof": prof, "cls": "err", "msg": format!("{:#}", e), "digest": "", "panics": take_panics(), "n_samples": 0, "n_contigs": 0}));
+            return out;
+        }
+        Err(_) => {
+            let p = take_panics();
+            out.push(json!({"ev": "extract", "prof": prof, "cls": cls_of(&p, "panic"), "msg": "", "digest": "", "panics": p, "n_samples": 0, "n_contigs": 0}));
+            return out;
+        }
+    };
+    let samples = d.list_samples();
+    let mut h = sha2::Sha256::new();
+    let mut n_contigs = 0usize;
+    let mut cls = "ok".to_string();
+    let mut msg = String::new();
+    let mut all: Vec<(String, String, usize)> = vec![];
+    for s in &samples {
+        hash_update(&mut h, s.as_bytes());
+        let r = std::panic::catch_unwind(std::panic::AssertUnwindSafe(|| d.get_sample(s)));
+        match r {
+            Ok(Ok(cs)) => {
+                for (n, q) in &cs {
+                    hash_update(&mut h, n.as_bytes());
+                    hash_update(&mut h, q);
+                    all.push((s.clone(), n.clone(), q.len()));
+                    n_contigs += 1;
+                }
+            }
+            Ok(Err(e)) => {
+                cls = "err".into();
+                msg = format!("{:#}", e);
+                hash_update(&mut h, b"<err>");
+            }
+            Err(_) => {
+                cls = "panic".into();
+                hash_update(&mut h, b"<panic>");
+            }
+        }
+    }
+    let p = take_panics();
+    let cls = cls_of(&p, &cls);
+    let digest: String = h.finalize().iter().map(|x| format!("{:02x}", x)).collect();
+    out.push(json!({"ev": "extract", "prof": prof, "cls": cls, "msg": msg, "digest": digest, "panics": p, "n_samples": samples.len(), "n_contigs": n_contigs}));
+
+    // lengths, segment descriptors and ranges on a fresh handle (decompressor.rs 242-400)
+    let mut rows: Vec<Value> = vec![];
+    let mut h2 = sha2::Sha256::new();
+    let mut cls2 = "ok".to_string();
+    if let Ok(mut d2) = Decompressor::open(agc, DecompressorConfig { verbosity: 0 }) {
+        let mut r = util::rng(seed ^ 0xC18);
+        for (s, c, real_len) in &all {
+            let res = std::panic::catch_unwind(std::panic::AssertUnwindSafe(|| {
+                let l = d2.get_contig_length(s, c);
+                let segs = d2.get_contig_segments_desc(s, c);
+                (l, segs)
+            }));
+            match res {
+                Ok((Ok(l), Ok(segs))) => {
+                    rows.push(json!([l.min(1 << 30), real_len, segs.iter().map(|x| x.raw_length.min(1 << 30)).collect::<Vec<_>>()]));
+                }
+                Ok(_) => {
+                    cls2 = "err".into();
+                }
+                Err(_) => {
+                    cls2 = "panic".into();
+                }
+            }
+            // two seeded ranges per contig
+            for _ in 0..2 {
+                let (x, y) = (r.gen_range(0..real_len + 2), r.gen_range(0..real_len + 2));
+                let (st, en) = (x.min(y), x.max(y));
+                let rr = std::panic::catch_unwind(std::panic::AssertUnwindSafe(|| d2.get_contig_range(s, c, st, en)));
+                match rr {
+                    Ok(Ok(v)) => hash_update(&mut h2, &v),
+                    Ok(Err(_)) => hash_update(&mut h2, b"<err>"),
+                    Err(_) => {
+                        cls2 = "panic".into();
+                        hash_update(&mut h2, b"<panic>")
+                    }
+                }
+            }
+        }
+    } else {
+        cls2 = "err".into();
+    }
+    let p = take_panics();
+    let cls2 = cls_of(&p, &cls2);
+    let digest2: String = h2.finalize().iter().map(|x| format!("{:02x}", x)).collect();
+    out.push(json!({"ev": "lengths", "prof": prof, "cls": cls2, "k": k, "rows": rows, "digest": digest2, "panics": p}));
+    out
+}
+
+/// Open truncated copies: every prefix length when the archive is at most `max_all` bytes, else
+/// a seeded sample that always contains the first and last 300 lengths.
+/// Row = [n, footer field of the prefix (last 8 bytes, little endian, capped), class(Archive::open), class(Decompressor::open)]
+/// classes: 0 err, 1 handle, 2 arithmetic panic, 3 other panic.
+fn open_events(prof: &str, agc: &str, max_all: usize, seed: u64) -> Result<Value> {
+    let bytes = std::fs::read(agc)?;
+    let len = bytes.len();
+    let mut offs: Vec<usize> = if len <= max_all {
+        (0..len).collect()
+    } else {
+        let mut r = util::rng(seed ^ 0x7C18);
+        let mut v: Vec<usize> = (0..300.min(len)).chain(len.saturating_sub(300)..len).collect();
+        for _ in 0..max_all.saturating_sub(600) {
+            v.push(r.gen_range(0..len));
+        }
+        v
+    };
+    offs.sort();
+    offs.dedup();
+    let tmp = format!("{}.{}.trunc", agc, prof);
+    let mut rows: Vec<Value> = Vec::with_capacity(offs.len());
+    let mut first: Vec<Value> = vec![];
+    let code = |r: std::thread::Result<bool>, first: &mut Vec<Value>, n: usize, api: &str| -> i64 {
+        let p = take_panics();
+        match r {
+            Ok(true) => 1,
+            Ok(false) => 0,
+            Err(_) => {
+                let arith = p.iter().any(|x| x["arith"] == json!(true));
+                if first.len() < 6 {
+                    for mut x in p {
+                        x["n"] = json!(n);
+                        x["api"] = json!(api);
+                        first.push(x);
+                    }
+                }
+                if arith {
+                    2
+                } else {
+                    3
+                }
+            }
+        }
+    };
+    for &n in &offs {
+        std::fs::write(&tmp, &bytes[..n])?;
+        let foot: u64 = if n >= 8 { u64::from_le_bytes(bytes[n - 8..n].try_into().unwrap()) } else { 0 };
+        let ra = std::panic::catch_unwind(|| {
+            let mut ar = ragc_common::archive::Archive::new_reader();
+            ar.open(&tmp).is_ok()
+        });
+        let ca = code(ra, &mut first, n, "Archive::open");
+        let rd = std::panic::catch_unwind(|| Decompressor::open(&tmp, DecompressorConfig { verbosity: 0 }).is_ok());
+        let cd = code(rd, &mut first, n, "Decompressor::open");
+        rows.push(json!([n, foot.min(1 << 30), ca, cd]));
+    }
+    let _ = std::fs::remove_file(&tmp);
+    Ok(json!({"ev": "opens", "prof": prof, "len": len, "rows": rows, "panics": first, "exhaustive": len <= max_all}))
+}
+
+// ------------------------------------------------------------------------------------------
+// trace-lzest
+// ------------------------------------------------------------------------------------------
+fn rand_seq(r: &mut StdRng, n: usize) -> Vec<u8> {
+    (0..n).map(|_| r.gen_range(0..4u8)).collect()
+}
+
+fn mutate(r: &mut StdRng, s: &[u8], snp: f64, indel: f64, nrun: f64, iupac: f64) -> Vec<u8> {
+    let mut out = Vec::with_capacity(s.len() + 16);
+    let mut i = 0;
+    while i < s.len() {
+        let x: f64 = r.gen();
+        if x < snp {
+            out.push((s[i] + r.gen_range(1..4u8)) % 4);
+            i += 1;
+        } else if x < snp + indel {
+            if r.gen_bool(0.5) {
+                for _ in 0..r.gen_range(1..5) {
+                    out.push(r.gen_range(0..4u8));
+                }
+            } else {
+                i += r.gen_range(1..5usize).min(s.len() - i);
+            }
+        } else if x < snp + indel + nrun {
+            let l = [1usize, 2, 3, 4, 5, 9, 14][r.gen_range(0..7)];
+            for _ in 0..l {
+                out.push(4);
+            }
+            i += l.min(s.len() - i);
+        } else if x < snp + indel + nrun + iupac {
+            out.push(r.gen_range(5..16u8));
+            i += 1;
+        } else {
+            out.push(s[i]);
+            i += 1;
+        }
+    }
+    out
+}
+
+/// (reference, target) pairs derived by mutation, shaped like the segments the compressor
+/// estimates against candidate references (same start or same end, diverged in between).
+fn gen_pair(r: &mut StdRng, idx: usize, len: usize, key_len: usize) -> (Vec<u8>, Vec<u8>, &'static str) {
+    let l = (len as f64 * r.gen_range(0.4..1.3)) as usize + 8;
+    let mut reference = rand_seq(r, l);
+    if idx % 7 == 3 {
+        reference = mutate(r, &reference, 0.0, 0.0, 0.01, 0.01); // N-runs / IUPAC inside the reference
+    }
+    if idx % 5 == 2 && l > 60 {
+        // tandem repeat inside the reference: equally long candidate matches
+        let blk: Vec<u8> = reference[10..40].to_vec();
+        let at = l / 2;
+        let tail = reference.split_off(at);
+        reference.extend_from_slice(&blk);
+        reference.extend_from_slice(&tail);
+    }
+    let rate = [0.0, 0.004, 0.015, 0.04, 0.10, 0.25][r.gen_range(0..6)];
+    let kind = idx % 12;
+    let (target, name): (Vec<u8>, &'static str) = match kind {
+        0 => (reference.clone(), "equal"),
+        1 => (mutate(r, &reference, 0.02, 0.0, 0.0, 0.0), "snp_only"),
+        2 => {
+            // mismatch shortly before a long identical tail: back-extended match running to the end
+            let mut t = reference.clone();
+            let p = t.len().saturating_sub(r.gen_range(18..40)).max(1);
+            t[p - 1] = (t[p - 1] + 1) % 4;
+            (t, "snp_then_tail")
+        }
+        3 => {
+            let mut t = mutate(r, &reference, rate, rate / 4.0, 0.0, 0.0);
+            t.truncate(t.len().saturating_sub(r.gen_range(0..30)));
+            (t, "cut_tail")
+        }
+        4 => {
+            let mut t = mutate(r, &reference, rate, rate / 4.0, 0.0, 0.0);
+            let n = r.gen_range(1..40);
+            t.extend(rand_seq(r, n));
+            (t, "extra_tail")
+        }
+        5 => (mutate(r, &reference, rate, rate / 3.0, 0.004, 0.0), "nruns"),
+        6 => (mutate(r, &reference, rate, 0.0, 0.0, 0.01), "iupac"),
+        7 => {
+            let cut = r.gen_range(0..reference.len() / 2);
+            (mutate(r, &reference[cut..], rate, rate / 4.0, 0.0, 0.0), "cut_head")
+        }
+        8 => {
+            // targets around and below key_len (the loop guard `i + key_len < text_size`), and the empty target
+            let n = [0, 1, key_len.saturating_sub(1), key_len, key_len + 1, r.gen_range(0..24)][(idx / 12) % 6];
+            (rand_seq(r, n), "short_random")
+        }
+        9 => {
+            let mut t = vec![4u8; r.gen_range(3..30)];
+            t.extend(mutate(r, &reference, rate, 0.0, 0.0, 0.0));
+            (t, "leading_nrun")
+        }
+        10 => {
+            // the target ends inside the reference, after an indel
+            let mut t = mutate(r, &reference, 0.01, 0.01, 0.0, 0.0);
+            let keep = t.len() * 2 / 3;
+            t.truncate(keep);
+            (t, "prefix_of_ref")
+        }
+        _ => (mutate(r, &reference, rate, rate / 4.0, 0.001, 0.001), "mixed"),
+    };
+    (reference, target, name)
+}
+
+/// Projection of the LZ-diff V2 byte stream to token fields:
+/// [0,0,0] literal or '!' ; [1, field, 0] N-run (field = len - 4) ; [2, delta, field | -1] match
+/// (field = len - min_match, -1 when the length is omitted). Err on bytes outside the grammar.
+fn lex_tokens(b: &[u8]) -> std::result::Result<Vec<[i64; 3]>, String> {
+    fn int(b: &[u8], p: &mut usize) -> std::result::Result<i64, String> {
+        let neg = *p < b.len() && b[*p] == b'-';
+        if neg {
+            *p += 1;
+        }
+        let st = *p;
+        let mut v: i64 = 0;
+        while *p < b.len() && b[*p].is_ascii_digit() {
+            v = v * 10 + (b[*p] - b'0') as i64;
+            *p += 1;
+            if v > (1 << 40) {
+                return Err("integer too long".into());
+            }
+        }
+        if *p == st {
+            return Err(format!("digit expected at {}", st));
+        }
+        Ok(if neg { -v } else { v })
+    }
+    let mut out = vec![];
+    let mut p = 0usize;
+    while p < b.len() {
+        let c = b[p];
+        if c == 30 {
+            p += 1;
+            let v = int(b, &mut p)?;
+            if p >= b.len() || b[p] != 4 {
+                return Err(format!("N-run terminator expected at {}", p));
+            }
+            p += 1;
+            out.push([1, v, 0]);
+        } else if c == b'-' || c.is_ascii_digit() {
+            let d = int(b, &mut p)?;
+            let mut f = -1i64;
+            if p < b.len() && b[p] == b',' {
+                p += 1;
+                f = int(b, &mut p)?;
+            }
+            if p >= b.len() || b[p] != b'.' {
+                return Err(format!("'.' expected at {}", p));
+            }
+            p += 1;
+            out.push([2, d, f]);
+        } else {
+            out.push([0, 0, 0]);
+            p += 1;
+        }
+    }
+    Ok(out)
+}
+
+fn trace_lzest(a: &Args) -> Result<()> {
+    install_global_hook();
+    let ovf = probe_overflow_checks();
+    take_panics();
+    let prof = a.opt("prof").unwrap_or(if ovf { "chk" } else { "release" }).to_string();
+    let seed: u64 = a.num("seed", 1u64);
+    let pairs: usize = a.num("pairs", 24usize);
+    let len: usize = a.num("len", 120usize);
+    let mut out = std::io::BufWriter::new(std::fs::File::create(a.get("out")?)?);
+    let mut r = util::rng(seed ^ 0x1E57);
+    let mut n_calls = 0u64;
+    let mut n_arith = 0u64;
+    let mut h = {
+        use sha2::Digest;
+        sha2::Sha256::new()
+    };
+    for idx in 0..pairs {
+        let mm: u32 = [15u32, 18, 20, 12, 15, 24][r.gen_range(0..6)];
+        let (reference, target, name) = gen_pair(&mut r, idx, len, (mm - 3) as usize);
+        writeln!(out, "{}", json!({"ev": "pair", "id": idx, "kind": name, "prof": prof, "ovf": ovf, "mm": mm, "hs": 4, "ref": reference, "tgt": target}))?;
+        let mut lz = LZDiff::new(mm);
+        lz.prepare(&reference);
+        let ts = target.len() as u32;
+        let mut bounds: Vec<u32> = vec![1_000_000, if ts >= 16 { ts - 16 } else { ts }, 4];
+        bounds.dedup();
+        for &b in &bounds {
+            let res = std::panic::catch_unwind(std::panic::AssertUnwindSafe(|| lz.estimate(&target, b)));
+            let p = take_panics();
+            n_calls += 1;
+            let (v, big, pm) = match res {
+                Ok(v) => (v.min(1 << 30), v >= (1 << 30), String::new()),
+                Err(_) => (0, false, p.first().map(|x| format!("{} @ {}", x["msg"].as_str().unwrap_or(""), x["loc"].as_str().unwrap_or(""))).unwrap_or("panic".into())),
+            };
+            n_arith += p.iter().filter(|x| x["arith"] == json!(true)).count() as u64;
+            hash_update(&mut h, format!("e{}:{}:{}:{}", idx, b, v, pm.is_empty()).as_bytes());
+            writeln!(out, "{}", json!({"ev": "estimate", "id": idx, "bound": b, "res": v, "big": big, "panic": pm, "panics": p}))?;
+        }
+        let res = std::panic::catch_unwind(std::panic::AssertUnwindSafe(|| lz.encode(&target)));
+        let p = take_panics();
+        n_calls += 1;
+        n_arith += p.iter().filter(|x| x["arith"] == json!(true)).count() as u64;
+        let (toks, pm, nbytes) = match res {
+            Ok(bytes) => {
+                hash_update(&mut h, &bytes);
+                match lex_tokens(&bytes) {
+                    Ok(t) => (t, String::new(), bytes.len()),
+                    Err(e) => (vec![], format!("lexer: {}", e), bytes.len()),
+                }
+            }
+            Err(_) => {
+                hash_update(&mut h, b"<panic>");
+                (vec![], p.first().map(|x| format!("{} @ {}", x["msg"].as_str().unwrap_or(""), x["loc"].as_str().unwrap_or(""))).unwrap_or("panic".into()), 0)
+            }
+        };
+        writeln!(out, "{}", json!({"ev": "encode", "id": idx, "toks": toks, "bytes": nbytes, "panic": pm, "panics": p}))?;
+    }
+    out.flush()?;
+    use sha2::Digest;
+    let digest: String = h.finalize().iter().map(|x| format!("{:02x}", x)).collect();
+    println!("{}", json!({"prof": prof, "ovf": ovf, "pairs": pairs, "calls": n_calls, "arith": n_arith, "digest": digest}));
+    Ok(())
 }
